@@ -29,7 +29,8 @@ Next == \/ c.stage = 0 /\ \E cl \in Classes, l \in BOOLEAN, nsec \in 1..3, nseg 
                              /\ c' = [c EXCEPT !.stage = 2] @@ [early |-> early, xs |-> xs, xp |-> xp, xi |-> xi, ndx |-> ndx, d |-> d]
 
 
-Opts == [early |-> c.early, shstrndx |-> c.ndx, shnum_ext |-> c.xs, phnum_ext |-> c.xp, shstrndx_ext |-> c.xi]
+Opts == [early |-> c.early, shstrndx |-> c.ndx, shnum_ext |-> c.xs, phnum_ext |-> c.xp, shstrndx_ext |-> c.xi,
+         etype |-> IF c.xp THEN 4 ELSE IF c.early THEN 3 ELSE 1]           \* (no answer may depend on the kind of object)
 Good == BuildObj(c.class, c.little, Secs(c.nsec), Segs(c.nseg), Opts)
 Enc16(n) == IF c.little THEN W2(n) ELSE Rev(W2(n))
 ShEs == CSize("shdr", c.class)
